@@ -130,8 +130,10 @@ class C03(props.Prop):
         # adversarial acceptance probability
         for rule in spec['model']['rules']:
             _set_p(rule[0], rng.choice([0.03, 0.1, 0.2, 0.35, 0.5]))
-        if rng.random() < 0.4:
-            # neighbourhood adversary: accepts every input whose tokens differ
+        if rng.random() < 0.4 and len(spec['input']) <= 700:
+            # neighbourhood adversary (on inputs of moderate size: nothing is
+            # accepted that erases anything, so every proposal for every node
+            # is tested and the run time grows quadratically): accepts every input whose tokens differ
             # from the original's by at most m (keeps the structure, accepts
             # small rewrites in both directions: inverse pairs of mutators
             # then cycle)
@@ -170,6 +172,9 @@ class C03(props.Prop):
                 'digs': [reftok.digest(reftok.tokenize(t)) for t in texts]
             }, 'bug']]
             spec['corpus'] = c['name']
+            # the strategies without a progress measure walk a listed cycle
+            # for ever: a few rounds are enough for every rule
+            spec['stop_after_writes'] = 60
         spec['jump_budget'] = JUMP_BUDGET
         spec['sched']['step_cap'] = 1500000
         spec['sched']['wall_cap'] = 12.0
